@@ -198,6 +198,15 @@ def run(ctx, replay=None):
     ctx.cov["traces_validated_against_impl"] = len(rows) - len(badcases)
     ctx.cov["evaluations"] = len(rows)
     ctx.cov["distinct_nontrivial"] = len(jobs)
+    # non-vacuity: what the injected cases left behind (every kill and error was confirmed in strace's log, or the check stops)
+    after = {}
+    for r in rows:
+        if r.get("ev") == "after" and r["how"] != "completed":
+            k = "%s: key=%s%s" % (r["how"], r["key"], " spool-left" if r["spoolleft"] else "")
+            after[k] = after.get(k, 0) + 1
+    ctx.cov["injected_outcomes"] = after
+    if not any(k.startswith("killed") and "key=new" not in k for k in after):
+        raise vlib.Inconclusive("no kill left the old state behind: the injection does not bite")
     ctx.cov["rule"] = ("per scenario (first write / overwrite x value size, delete): the traced system-call sequence; a kill at the entry of every "
                        "system call of the operation; an injected error at every call; the data write cut short at 0, 1, half and size-1 bytes "
                        "with and without a kill right after; every case distinct")
